@@ -222,6 +222,10 @@ def clears(rng):
     # clearing the page with another query also clears the Full entry (stored under the bare path)
     ops = [pipe.req(b"/c?a=1"), pipe.clear_page(b"/c?zzz"), pipe.req(b"/c?a=1"), pipe.req(b"/d?x=1"), pipe.clear_page(b"/d?x=2"), pipe.req(b"/d?x=1")]
     out.append(case(base_cfg([h, h2]), ops, "clear", [C, None, C, C, None, H_]))
+    # keys: a Full response is one item whatever the query, a QueryMatters response one item per query
+    ops = [pipe.req(b"/c?x=1"), pipe.req(b"/c?x=2"), pipe.req(b"/c"), pipe.req(b"/d?x=1"), pipe.req(b"/d?x=2"), pipe.req(b"/d?x=1"), pipe.req(b"/d"),
+           pipe.req(b"/d?x=2", method=b"HEAD")]
+    out.append(case(base_cfg([h, h2]), ops, "keys", [C, H_, H_, C, C, H_, C, H_]))
     # the page as the client names it ("/a/", "/a.", "/") is stored under the redirected URI: clearing either name clears it
     hs = [pipe.H(b"/a/index.html", kind=2, body=b"i=", spref=2, cpref=0), pipe.H(b"/a.html", kind=2, body=b"h=", spref=1, cpref=0),
           pipe.H(b"/index.html", kind=2, body=b"r=", spref=2, cpref=0)]
